@@ -393,9 +393,33 @@ func (rp *Report) confirm(it *Item, x *Exec, res *rt.Result, choices []int, boun
 		old.Count++
 		return
 	}
+	// Re-run the schedule five times without pruning. An execution that was cut at an
+	// already-visited state reported only the failures up to the cut, so its failures must
+	// be contained in (not equal to) what the complete re-run reports; the re-runs must agree.
+	var full []Failure
 	for i := 0; i < 5; i++ {
 		x2, res2 := rp.runOnce(it, choices, nil, i == 0)
-		if res2.Diverged != "" || !sameFailures(x2.failures, x.failures) {
+		ok := res2.Diverged == ""
+		if ok && i == 0 {
+			full = x2.failures
+			for _, f := range x.failures {
+				found := false
+				for _, g := range full {
+					if f == g {
+						found = true
+					}
+				}
+				if !found {
+					ok = false
+				}
+			}
+			if !res.Pruned && !sameFailures(full, x.failures) {
+				ok = false
+			}
+		} else if ok && !sameFailures(x2.failures, full) {
+			ok = false
+		}
+		if !ok {
 			rp.EngineErrors = append(rp.EngineErrors, fmt.Sprintf("%s: unstable failure %v vs %v (%s) choices=%v", it.Name, x.failures, x2.failures, res2.Diverged, choices))
 			return
 		}
@@ -406,6 +430,7 @@ func (rp *Report) confirm(it *Item, x *Exec, res *rt.Result, choices []int, boun
 			}
 		}
 	}
+	v.Failures = full
 	v.Signature = sig
 	rp.AddViolation(v)
 }
